@@ -164,8 +164,12 @@ class YamlDocument(HierDictDocument):
 
             ctx.in_document = yaml.load(s, **self.in_kwargs)
 
-        except (yaml.YAMLError, UnicodeError, LookupError) as e:
-            # the latter two: wrong or unknown charset
+        except (yaml.YAMLError, UnicodeError, LookupError, ValueError,
+                                AttributeError, TypeError, RecursionError) as e:
+            # UnicodeError, LookupError: wrong or unknown charset
+            # the rest is what the constructors of the yaml package raise for
+            # scalars they can't convert (!!timestamp "x", an integer of 5000
+            # digits...) or for documents nested too deeply
             raise Fault('Client.YamlDecodeError', repr(e))
 
     def create_out_string(self, ctx, out_string_encoding='utf8'):
